@@ -40,7 +40,7 @@ func first(s Paths) Path {
 }
 
 func pathDOf(p Path) clipper.PathD {
-	out := make(clipper.PathD, len(p))
+	out := newPathD(len(p))
 	for i, q := range p {
 		out[i] = clipper.PointD{X: float64(q[0]), Y: float64(q[1])}
 	}
